@@ -42,63 +42,102 @@ KV(tag, ty)        == [k |-> "kv", tag |-> tag, ty |-> ty, pop |-> FALSE, txt |-
 GRP(tag, tmpl)     == [k |-> "grp", tag |-> tag, tmpl |-> tmpl, entries |-> <<>>]
 CMP(items)         == [k |-> "cmp", items |-> items]
 
-\* value sets (canonical text); "look" = texts that resemble fields of the templates below
+\* value lists (canonical text); they contain texts that resemble fields of the templates below
 Vals(ty) ==
-  CASE ty = "string" -> { <<65>>,                          \* A
-                          <<61>>,                          \* =
-                          <<49, 48, 61, 49>>,              \* 10=1
-                          <<54, 61, 50>>,                  \* 6=2   (count tag of a group / suffix of 146)
-                          <<88, 49, 52, 54, 61, 55>> }     \* X146=7
-    [] ty = "int"    -> { <<48>>, <<45, 51>>, <<49, 52, 54>> }   \* 0 -3 146
-    [] ty = "bool"   -> { <<89>>, <<78>> }
-    [] ty = "raw"    -> { <<1 + 1>>, <<53, 61>> }                 \* 0x02, "5="
+  CASE ty = "string" -> << <<65>>,                          \* A
+                           <<61>>,                          \* =
+                           <<49, 48, 61, 49>>,              \* 10=1
+                           <<54, 61, 50>>,                  \* 6=2   (count tag of a group / suffix of 146)
+                           <<88, 49, 52, 54, 61, 55>> >>    \* X146=7
+    [] ty = "int"    -> << <<48>>, <<45, 51>>, <<49, 52, 54>> >>   \* 0 -3 146
+    [] ty = "bool"   -> << <<89>>, <<78>> >>
+    [] ty = "raw"    -> << <<2>>, <<53, 61>> >>                     \* 0x02, "5="
 
-\* all populations of an item list; first = TRUE forces the first leaf to be populated
-RECURSIVE PopItems(_, _)
-RECURSIVE PopEntries(_, _)
-PopNode(n, force) ==
-  CASE n.k = "kv"  -> {[n EXCEPT !.pop = TRUE, !.txt = v] : v \in Vals(n.ty)}
-                        \cup (IF force THEN {} ELSE {n})
-    [] n.k = "grp" -> {[n EXCEPT !.entries = es] : es \in PopEntries(n.tmpl, 2)}
-                        \ (IF force THEN {n} ELSE {})
-    [] n.k = "cmp" -> {[n EXCEPT !.items = its] : its \in PopItems(n.items, force)}
-PopItems(items, force) ==
-  IF items = <<>> THEN {<<>>}
-  ELSE {<<h>> \o t : h \in PopNode(Head(items), force), t \in PopItems(Tail(items), FALSE)}
-\* sequences of 0..max entries
-PopEntries(tmpl, max) ==
-  IF max = 0 THEN {<<>>}
-  ELSE {<<>>} \cup {<<e>> \o r : e \in PopItems(tmpl, TRUE), r \in PopEntries(tmpl, max - 1)}
+(***************************************************************************)
+(* Populations are indexed arithmetically (mixed radix) instead of being   *)
+(* built as sets: Count(x) is the number of populations of x and Nth(x, k) *)
+(* the k-th one (0-based).  force = TRUE: the first leaf must be populated *)
+(* (first field of a group entry).  Groups take 0..MaxEntries entries.     *)
+(***************************************************************************)
+MaxEntries == 2
+RECURSIVE CountItems(_, _), NthItems(_, _, _), Pow(_, _)
+Pow(b, e) == IF e = 0 THEN 1 ELSE b * Pow(b, e - 1)
+RECURSIVE SumPow(_, _)
+SumPow(b, e) == IF e = 0 THEN 1 ELSE Pow(b, e) + SumPow(b, e - 1)   \* 1 + b + ... + b^e
+
+CountNode(n, force) ==
+  CASE n.k = "kv"  -> Len(Vals(n.ty)) + (IF force THEN 0 ELSE 1)
+    [] n.k = "grp" -> SumPow(CountItems(n.tmpl, TRUE), MaxEntries) - (IF force THEN 1 ELSE 0)
+    [] n.k = "cmp" -> CountItems(n.items, force)
+CountItems(items, force) ==
+  IF items = <<>> THEN 1 ELSE CountNode(Head(items), force) * CountItems(Tail(items), FALSE)
+
+\* the k-th sequence of exactly len entries (each entry one of E populations)
+RECURSIVE NthEntries(_, _, _, _)
+NthEntries(tmpl, E, len, k) ==
+  IF len = 0 THEN <<>>
+  ELSE <<NthItems(tmpl, TRUE, k % E)>> \o NthEntries(tmpl, E, len - 1, k \div E)
+\* the k-th entry sequence of any length 0..MaxEntries: lengths in increasing order
+RECURSIVE NthSeq(_, _, _, _)
+NthSeq(tmpl, E, len, k) ==
+  IF k < Pow(E, len) THEN NthEntries(tmpl, E, len, k) ELSE NthSeq(tmpl, E, len + 1, k - Pow(E, len))
+
+NthNode(n, force, k) ==
+  CASE n.k = "kv"  -> IF ~force /\ k = 0 THEN n
+                      ELSE [n EXCEPT !.pop = TRUE, !.txt = Vals(n.ty)[IF force THEN k + 1 ELSE k]]
+    [] n.k = "grp" -> [n EXCEPT !.entries = NthSeq(n.tmpl, CountItems(n.tmpl, TRUE), 0, IF force THEN k + 1 ELSE k)]
+    [] n.k = "cmp" -> [n EXCEPT !.items = NthItems(n.items, force, k)]
+NthItems(items, force, k) ==
+  IF items = <<>> THEN <<>>
+  ELSE LET c == CountNode(Head(items), force)
+       IN <<NthNode(Head(items), force, k % c)>> \o NthItems(Tail(items), FALSE, k \div c)
 
 Bodies ==
-  CASE Family = "flat"   -> { <<>>,
-                              <<KV(tag146, "string")>>,
-                              <<KV(tag14, "int"), KV(tag146, "string"), KV(tag1146, "bool")>>,
-                              <<KV(tag46, "raw"), KV(tag6, "string")>> }
-    [] Family = "group"  -> { <<GRP(tag6, <<KV(tag146, "string"), KV(tag14, "int")>>)>>,
-                              <<KV(tag1146, "string"), GRP(tag46, <<KV(tag6, "int")>>), KV(tag14, "bool")>> }
-    [] Family = "nested" -> { <<GRP(tag6, <<KV(tag146, "int"), GRP(tag46, <<KV(tag14, "string")>>)>>)>>,
-                              <<CMP(<<KV(tag14, "int"), GRP(tag6, <<CMP(<<KV(tag146, "string")>>), KV(tag46, "bool")>>)>>), KV(tag1146, "int")>> }
-    [] Family = "parts"  -> { <<KV(tag146, "string")>> }
+  CASE Family = "flat"   -> << <<>>,
+                               <<KV(tag146, "string")>>,
+                               <<KV(tag14, "int"), KV(tag146, "string"), KV(tag1146, "bool")>>,
+                               <<KV(tag46, "raw"), KV(tag6, "string")>> >>
+    [] Family = "group"  -> << <<GRP(tag6, <<KV(tag146, "string"), KV(tag14, "int")>>)>>,
+                               <<KV(tag1146, "string"), GRP(tag46, <<KV(tag6, "int")>>), KV(tag14, "bool")>> >>
+    [] Family = "nested" -> << <<GRP(tag6, <<KV(tag146, "int"), GRP(tag46, <<KV(tag14, "string")>>)>>)>>,
+                               <<CMP(<<KV(tag14, "int"), GRP(tag6, <<CMP(<<KV(tag146, "string")>>), KV(tag46, "bool")>>)>>), KV(tag1146, "int")>> >>
+    [] Family = "parts"  -> << <<KV(tag146, "string")>> >>
 
 Headers ==
-  CASE Family = "parts" -> { <<>>, <<KV(tag34, "int")>>, <<KV(tag34, "int"), GRP(tag5, <<KV(tag55, "string")>>)>> }
-    [] OTHER -> { <<>>, <<KV(tag34, "int")>> }
+  CASE Family = "parts" -> << <<>>, <<KV(tag34, "int")>>, <<KV(tag34, "int"), GRP(tag5, <<KV(tag55, "string")>>)>> >>
+    [] Family = "nested" -> << <<>> >>
+    [] OTHER -> << <<>>, <<KV(tag34, "int")>> >>
 Trailers ==
-  CASE Family = "parts" -> { <<>>, <<KV(tag93, "string")>> }
-    [] OTHER -> { <<>> }
-TagSets == IF Family \in {"parts", "flat"} THEN {StdTags, AltTags} ELSE {StdTags}
+  CASE Family = "parts" -> << <<>>, <<KV(tag93, "string")>> >>
+    [] OTHER -> << <<>> >>
+TagSets == IF Family \in {"parts", "flat"} THEN <<StdTags, AltTags>> ELSE <<StdTags>>
+MsgTypes == IF Family = "nested" THEN << <<48>> >> ELSE << <<48>>, <<65, 69>> >>
 
-AllCases ==
-  { [tags |-> tg, beginString |-> <<70, 73, 88>>, msgType |-> mt, header |-> h, body |-> b, trailer |-> t] :
-      tg \in TagSets, mt \in {<<48>>, <<65, 69>>},
-      h \in UNION {PopItems(x, FALSE) : x \in Headers},
-      b \in UNION {PopItems(x, FALSE) : x \in Bodies},
-      t \in UNION {PopItems(x, FALSE) : x \in Trailers} }
+\* a "shape" is a choice of (tag set, msg type, header, body, trailer templates); shapes are
+\* laid out one after the other, each with Count = product of its parts' population counts
+Shapes == [tg : 1..Len(TagSets), mt : 1..Len(MsgTypes), h : 1..Len(Headers), b : 1..Len(Bodies), t : 1..Len(Trailers)]
+ShapeSeq == SetToSeq(Shapes)
+ShapeCount(sh) == CountItems(Headers[sh.h], FALSE) * CountItems(Bodies[sh.b], FALSE) * CountItems(Trailers[sh.t], FALSE)
+RECURSIVE OffList(_)
+\* OffList(j)[x] = number of cases of shapes 1..x, as a concrete tuple (evaluated once)
+OffList(j) == IF j = 0 THEN <<>>
+              ELSE LET p == OffList(j - 1)
+                   IN Append(p, (IF j = 1 THEN 0 ELSE p[j - 1]) + ShapeCount(ShapeSeq[j]))
+OffsetSeq == OffList(Len(ShapeSeq))
+N == IF Len(ShapeSeq) = 0 THEN 0 ELSE OffsetSeq[Len(ShapeSeq)]
 
-CaseSeq == SetToSeq(AllCases)
-N == Len(CaseSeq)
-Idx == {i \in 1..N : i % Of = Slice % Of}
+CaseAt(idx) ==   \* idx in 1..N
+  LET j == CHOOSE x \in 1..Len(ShapeSeq) : idx <= OffsetSeq[x] /\ (x = 1 \/ idx > OffsetSeq[x - 1])
+      sh == ShapeSeq[j]
+      k == idx - 1 - (IF j = 1 THEN 0 ELSE OffsetSeq[j - 1])
+      ch == CountItems(Headers[sh.h], FALSE)
+      cb == CountItems(Bodies[sh.b], FALSE)
+  IN [tags |-> TagSets[sh.tg], beginString |-> <<70, 73, 88>>, msgType |-> MsgTypes[sh.mt],
+      header  |-> NthItems(Headers[sh.h], FALSE, k % ch),
+      body    |-> NthItems(Bodies[sh.b], FALSE, (k \div ch) % cb),
+      trailer |-> NthItems(Trailers[sh.t], FALSE, k \div (ch * cb))]
+
+Idx == {x \in 1..N : x % Of = Slice % Of}
 
 VARIABLE i
 \* i = 0: root; i < 0: head of block -i; i > 0: case i.  The two-level fan-out lets every
@@ -109,27 +148,32 @@ Next == \/ i = 0 /\ i' \in {0 - b : b \in 1..Blocks}
         \/ i < 0 /\ i' \in {j \in Idx : j % Blocks = (0 - i) - 1}
 Spec == Init /\ [][Next]_i
 
-c == CaseSeq[i]
-
 Blank(m) == [m EXCEPT !.header = BlankItems(m.header), !.body = BlankItems(m.body),
                       !.trailer = BlankItems(m.trailer)]
-Fail(what) == PrintT("MODEL-FAIL " \o what \o " " \o ToJson(c)) /\ FALSE
+Fail(what, c) == PrintT("MODEL-FAIL " \o what \o " " \o ToJson(c)) /\ FALSE
 
 \* C01: the constructive definition satisfies the declarative one
 \* C17: the wire field list is framing + populated leaves
 \* C02 / C18: the reference parser inverts the encoder whatever look-alike text values contain
 \* C18: lookups are boundary based
+\* and the case is printed as JSON for replay on the real code
 InvCase ==
   i > 0 =>
-    LET w == Wire(c)
+    LET c == CaseAt(i)
+        w == Wire(c)
         AF == AllFields(c)
+        FW == FieldsOf(w)
         FS == {AF[j] : j \in 1..Len(AF)}
         p == RefParse(Blank(c), w)
-    IN /\ (Framed(w, c.tags) \/ Fail("Framed"))
-       /\ (FieldsOf(w) = AF \/ Fail("Fields"))
-       /\ ((WellFormedTemplate(c) /\ WellFormedPop(c)) => ((SameContent(p, c) /\ Wire(p) = w) \/ Fail("RoundTrip")))
+    IN /\ (Framed(w, c.tags) \/ Fail("Framed", c))
+       /\ (FW = AF \/ Fail("Fields", c))
+       /\ ((WellFormedTemplate(c) /\ WellFormedPop(c)) => ((SameContent(p, c) /\ Wire(p) = w) \/ Fail("RoundTrip", c)))
        /\ ((\A f \in FS : (\A g \in FS : g[1] = f[1] => g = f)
-                              => Lookup(FieldsOf(w), f[1]) = [found |-> TRUE, val |-> f[2]]) \/ Fail("Lookup"))
+                              => Lookup(FW, f[1]) = [found |-> TRUE, val |-> f[2]]) \/ Fail("Lookup", c))
+       /\ PrintT("CASE " \o ToJson([id |-> "tlc-" \o Family \o "-" \o ToString(i), m |-> c,
+                                     lookalike |-> TRUE,
+                                     lookups |-> {AF[j][1] : j \in 1..Len(AF)}
+                                                   \cup {tag4, tag6, tag46, tag146, tag100}]))
 
 \* C03 on the model: one-byte damages over the model alphabet
 Alphabet == {0, SOH, EQ, 48, 49, 54, 65}
@@ -141,15 +185,12 @@ Damages(s) == Subst(s) \cup Insert(s) \cup Delete(s) \cup ProperPrefixes(s)
 
 \* the only damage the BodyLength/CheckSum scheme cannot see: a NUL byte inserted into
 \* the BeginString value (not covered by BodyLength, contributes 0 to the sum)
-NulInBeginString(d, s) ==
+NulInBeginString(d, s, c) ==
   /\ Len(d) = Len(s) + 1
   /\ \E p \in (Len(c.tags.bs) + 1)..(Len(c.tags.bs) + 1 + Len(c.beginString)) :
        d = SubSeq(s, 1, p) \o <<0>> \o SubSeq(s, p + 1, Len(s))
-InvDamage == i > 0 => LET w == Wire(c) IN \A d \in Damages(w) : Agrees(d, c.tags) => NulInBeginString(d, w)
+InvDamage == i > 0 => LET c == CaseAt(i)
+                          w == Wire(c)
+                      IN \A d \in Damages(w) : Agrees(d, c.tags) => NulInBeginString(d, w, c)
 
-\* emission of the case for replay on the real code (always TRUE)
-Emit == i > 0 => PrintT("CASE " \o ToJson([id |-> "tlc-" \o Family \o "-" \o ToString(i), m |-> c,
-                                   lookalike |-> TRUE,
-                                   lookups |-> {AllFields(c)[j][1] : j \in 1..Len(AllFields(c))}
-                                                 \cup {tag4, tag6, tag46, tag146, tag100}]))
 =============================================================================
